@@ -416,6 +416,33 @@ mut("c16-text-vs-number-natural", "C16", "src/config/mod.rs", """            (Se
             (Self::Number { .. }, Self::Text(_)) => Ordering::Less,""")
 mut("c16-const-cmp-by-name", "C16", "src/entry/generic.rs", "if self.partial_cmp == other.partial_cmp {", "if false {")
 
+# ---- round 5: command-line routes, leaf rows, timestamps
+mut("c16-cli-sortr-not-reverse", "C16", "src/divan.rs", """            self.reverse_sort = true;
+            self.sorting_attr = sorting_attr;""", """            self.reverse_sort = false;
+            self.sorting_attr = sorting_attr;""")
+# (not resetting reverse_sort on --sort is equivalent: nothing else can set it before config_with_args)
+mut("c16-cli-name-and-location-swapped", "C16", "src/cli.rs", """            Self::Name => "name",
+            Self::Location => "location",""", """            Self::Name => "location",
+            Self::Location => "name",""")
+mut("c04-cli-max-time-as-min", "C04", "src/divan.rs", 'matches.get_one("max-time")', 'matches.get_one("min-time")')
+mut("c20-alloc-sections-swapped", "C20", "src/tree_painter.rs", "[AllocOp::Alloc, AllocOp::Dealloc, AllocOp::Grow, AllocOp::Shrink]", "[AllocOp::Alloc, AllocOp::Grow, AllocOp::Dealloc, AllocOp::Shrink]")
+mut("c20-continuation-rows-lose-bar", "C20", "src/tree_painter.rs", """            if !is_last {
+                buf.push('│');
+            }
+
+            right_pad_buffer(buf, max_span);""", """            if false && !is_last {
+                buf.push('│');
+            }
+
+            right_pad_buffer(buf, max_span);""")
+mut("c20-max-alloc-size-row-dropped", "C20", "src/tree_painter.rs", """            for serialized in [
+                serialized_max_alloc_counts.as_ref(),
+                serialized_max_alloc_sizes.as_ref(),
+            ]""", """            for serialized in [
+                serialized_max_alloc_counts.as_ref(),
+            ]""")
+mut("c11-os-timestamp-truncates-to-micros", "C11", "src/time/timestamp/mod.rs", "this.duration_since(earlier).into()", "std::time::Duration::from_micros(this.duration_since(earlier).as_micros() as u64).into()")
+
 # ---- C20
 TP = "src/tree_painter.rs"
 mut("c20-finish-parent-truncates-2", "C20", TP, "_ = iter.by_ref().rev().nth(2);", "_ = iter.by_ref().rev().nth(1);")
